@@ -5,7 +5,7 @@
 // middleware of the server counts the tools/list requests that reach it and sets `ttlMs` on their results.  A case is a
 // sequence of operations; every record carries the virtual clock (ms since the case began):
 //
-//	seq cfg K<sl|sf> pv<new|old> ps<pagesize>     server + handler                              -> ok
+//	seq cfg K<sl|sf> pv<new|old> ps<pagesize> sub<0|1>   server + handler (sub: the client will register a ToolListChangedHandler) -> ok
 //	seq t<ms> connect                              client, Connect                               -> new<0|1> (cs.usesNewProtocol)
 //	seq t<ms> set t<name> p{ schema }              Server.AddTool (add, or re-register)          -> ok
 //	seq t<ms> del t<name>                          Server.RemoveTools                            -> ok
@@ -554,7 +554,7 @@ func pfqRun(t *testing.T, out *verifOut, cs string, at string, lines []string, e
 				sub := len(f) > 4 && f[4] == "sub1"
 				w.open(f[1], f[2], ps, sub)
 				f[3] = fmt.Sprintf("ps%d", w.srv.opts.PageSize) // the effective page size (0 = the SDK's default)
-				emit("seq "+strings.Join(f[:4], " "), "ok", "seq-cfg", "seq-"+f[1], "seq-"+f[2], "seq-"+f[3], "seq-sub"+pfB01(sub))
+				emit("seq "+strings.Join(f[:4], " ")+" sub"+pfB01(sub), "ok", "seq-cfg", "seq-"+f[1], "seq-"+f[2], "seq-"+f[3], "seq-sub"+pfB01(sub))
 				continue
 			}
 			if w.srv == nil {
